@@ -164,6 +164,8 @@ def run(case):
 
                 @cu.compute_lazy(path, force_to_compute=force)
                 def f(a, b=0, *, x=0):
+                    if a + b + x == 99:
+                        raise ValueError("99 is outside this function's domain")     # the bare function raises for this argument
                     calls.append(a + b + x)
                     return (a + b + x) * (a + b + x) + 1
 
@@ -171,7 +173,11 @@ def run(case):
                 for a in case[2:]:
                     n0 = len(calls)
                     a = int(a)
-                    v = f(a) if form == 0 else f(7, x=a - 7) if form == 1 else f(3, a - 3)
+                    try:
+                        v = f(a) if form == 0 else f(7, x=a - 7) if form == 1 else f(3, a - 3)
+                    except Exception as exc:  # noqa: for the argument 99 that is what the bare function does as well
+                        out.append(["raised", type(exc).__name__])
+                        continue
                     out.append([v, "1" if len(calls) > n0 else "0"])
             return out
         if k == "lazy2":
